@@ -70,6 +70,19 @@ mut("c07-root-missing-reported-as-keyerror", ["C07"], HX,
     "        except KeyError:\n            raise\n\n        return self._traverse_from(root_node, trie_key)",
     suite=None, note="missing root leaks a bare KeyError from get/traverse")
 
+mut("c04-root-pointer-before-root-write", ["C04"], HX,
+    "        self.root_hash = self._set_raw_node(root_node)\n",
+    "        _k, _v = self._node_to_db_mapping(root_node)\n        if _k != BLANK_NODE:\n            self.root_hash = keccak(encode_raw(_k)) if _v is None else _k\n        self.root_hash = self._set_raw_node(root_node)\n",
+    suite=True, note="root pointer moves before the root node is durable: a failed root write leaves an unreadable root")
+mut("c04-nonpruning-commit-applies-deletes", ["C04", "C05"], HX,
+    "        with scratch_db.batch_commit(do_deletes=self.is_pruning):",
+    "        with scratch_db.batch_commit(do_deletes=True):",
+    suite=False, note="a non-pruning batch commit deletes superseded nodes")
+mut("c04-at-root-snapshot-prunes", ["C04"], HX,
+    "        snapshot = type(self)(self.db, at_root_hash, prune=False)",
+    "        snapshot = type(self)(self.db, at_root_hash, prune=True)",
+    suite=None, note="writes through an at_root snapshot prune shared nodes")
+
 quiet("q-no-shortcircuit-delete-branch", ["C01", "C02", "C06"], HX,
       "        if encoded_sub_node == node[trie_key[0]]:\n            # If no change, (value already empty), short-circuit and skip any other work\n            return node\n\n        node[trie_key[0]] = encoded_sub_node",
       "        node[trie_key[0]] = encoded_sub_node",
